@@ -46,7 +46,7 @@ def programs(tier, seed):
         d2 = list(gen.depth2(theme, rng, per_inner=1 if tier == "quick" else 3))
         rng.shuffle(d2)
         out += [(theme, p) for p in d2[:40 if tier == "quick" else 600]]
-    out += [("real", p) for p in gen.einsum_progs()] + [("real", p) for p in gen.independent_progs()] + [("real", p) for p in gen.constant_progs()[::2]] + [("sameop:nondistributive", p) for p in gen.nondistributive_progs()]
+    out += [("real", p) for p in gen.einsum_progs()] + [("real", p) for p in gen.independent_progs()] + [("real", p) for p in gen.constant_progs()[::2]] + [("sameop:nondistributive", p) for p in gen.nondistributive_progs()] + [("sameop:stack", p) for p in gen.stack_hetero_progs()]
     from checks.c08 import SEMIRINGS, gen_mixed, gen_sameop, gen_signed_maxmul, gen_sumproducts
     out += [("sameop:signed-maxmul", p) for p in gen_signed_maxmul(rng, 12 if tier == "quick" else 120)]
     out += [("sameop:" + op, p) for op, car, p in gen_sameop(rng, 30 if tier == "quick" else 300)]
